@@ -10,7 +10,8 @@ from harness.core import Outcome
 
 ID = "C13"
 LEAN_TARGETS = ["BeyondVerif.Props.C13", "BeyondVerif.Props.C13Parts", "BeyondVerif.Props.C13Opm", "BeyondVerif.Props.C13Omm",
-                "BeyondVerif.Props.C13Groups", "BeyondVerif.Props.C13Ext", "BeyondVerif.Witness.C13", "BeyondVerif.Witness.C13Ext"]
+                "BeyondVerif.Props.C13Groups", "BeyondVerif.Props.C13Ext", "BeyondVerif.Props.C13Wf", "BeyondVerif.Props.C13Oem", "BeyondVerif.Props.C13Tdm",
+                "BeyondVerif.Props.C13KvnDict", "BeyondVerif.Props.C13Kvn", "BeyondVerif.Witness.C13", "BeyondVerif.Witness.C13Ext"]
 THEOREMS = [
     "BeyondVerif.C13.recurseKids_group",
     "BeyondVerif.C13.iterGroup_promote",
@@ -41,6 +42,15 @@ THEOREMS = [
     "BeyondVerif.C13.oem_covs_xml_group",
     "BeyondVerif.C13.obs_xml_roundtrip",
     "BeyondVerif.C13.observations_xml_roundtrip",
+    "BeyondVerif.C13.seg_xml_load_dump_id",
+    "BeyondVerif.C13.oem_xml_load_dump_id",
+    "BeyondVerif.C13.tdm_xml_load_dump_id",
+    "BeyondVerif.C13.tdm_xml_single_path",
+    "BeyondVerif.C13.kvn2dict_blocks",
+    "BeyondVerif.C13.opm_kvn_load_dump_id",
+    "BeyondVerif.C13.omm_kvn_load_dump_id",
+    "BeyondVerif.C13.opm_kvn_xml_agree",
+    "BeyondVerif.C13.omm_kvn_xml_agree",
     "BeyondVerif.C13.stamp_roundtrip_same_scale",
     "BeyondVerif.C13.stamp_instant_of_converting",
     "BeyondVerif.C13.stamp_instant_roundtrip_partial",
@@ -224,7 +234,7 @@ def _ud_key(rng):
         c = rng.choice(["USER_DEFINED_X", "MAN_" + word(), "EPOCH", "X", "COMMENT_" + word(), "OBJECT_NAME", "CX_X_" + word()])
     else:
         c = _name(rng, spaces=False).replace("(", "").replace(")", "").replace("-", "_")
-        if not c[0].isalpha():
+        if not c or not c[0].isalpha():
             c = "K" + c
     if rng.random() < 0.15:
         c = c.lower()
@@ -937,6 +947,20 @@ def witness_specs():
         opm(mans=[man("QSW")]), opm(mans=[man("TNW"), man(None)]), opm(ud={"FOO": "bar"}), opm(ud={}), omm(ud={"FOO": "bar"}), omm(), omm(via_tle=False),
         tdm([ob("Range", 0)]), tdm([ob("Doppler", 0), ob("Doppler", 1)]), tdm([ob("Elevation", 0), ob("Elevation", 1)]),
         tdm([ob("Range", 0), ob("Range", 1), ob("Range", 0, 1), ob("Range", 1, 1)], (("STA", "SAT", "STA"), ("STB", "SAT"))),
+        # continuous maneuvers dated by their median / stop (date_pos), given by accel, frames by name
+        opm(mans=[dict(man(None), kind="C", dur_ms=240000, date_pos="stop"), dict(man("TNW"), kind="C", dur_ms=240000, date_pos="median", by="accel"),
+                  dict(man("EME2000"), kind="C", dur_ms=500, date_pos="start"), dict(man("teme"), comment="")]),
+        # user-defined names with underscores, digits, lower case (CCSDS examples: EARTH_MODEL)
+        opm(ud={"EARTH_MODEL": "WGS-84", "TANK_1_MASS": "12.5", "TANK_1": "x y", "foo_bar": "1"}), omm(ud={"EARTH_MODEL": "WGS-84", "TANK_2_MASS": "7.25"}),
+        # open findings: dates labelled in another scale than the message (TT - UTC = 32.184 s + leap seconds, GPS - TAI = -19 s)
+        opm(mans=[dict(man(None), scale="TT")]),
+        {"type": "oem", "segs": [seg([pt(0), dict(pt(5), scale="TT"), pt(10)])], "as_list": False},
+        tdm([ob("Range", 0), dict(ob("Range", 12), scale="GPS")]),
+        # open finding: points kept in a non-cartesian form
+        {"type": "oem", "segs": [dict(seg([pt(0), pt(1)]), form="keplerian")], "as_list": False},
+        # open finding: Keplerian maneuvers
+        opm(mans=[dict(man(None), kind="KI", dkep={"da": 1000.0, "di": 0.0, "dOmega": 0.0})]),
+        opm(mans=[dict(man(None), kind="KC", dur_ms=60000, dkep={"da": 1000.0, "di": 0.001, "dOmega": 0.0})]),
     ]
 
 
